@@ -16,7 +16,7 @@ Traces == JsonDeserialize(IOEnv.TRACE_FILE)
 NTraces == Len(Traces)
 
 VARIABLES tid, l
-tvars == <<cs, ast, script, rpos, fwd, got, ret, tid, l>>
+tvars == <<cs, ast, script, rpos, fwd, got, ret, failAt, tid, l>>
 
 ASSUME \A i \in 1..NTraces : TLCSet(100 + i, 0)
 
@@ -25,7 +25,7 @@ Ev == T.events[l]
 
 TraceInit == /\ tid \in 1..NTraces /\ l = 1
              /\ cs = "CONNECTING" /\ ast = "CONNECTING"
-             /\ script = Traces[tid].script
+             /\ script = Traces[tid].script /\ failAt = Traces[tid].failAt
              /\ rpos = 0 /\ fwd = <<>> /\ got = <<>> /\ ret = "init"
 
 \* the logged post-state must be the specification's post-state
